@@ -13,7 +13,7 @@ ID = "C12"
 LEVEL = "exploration"
 EXHAUSTIVE = True
 RULE = ("the finite space {words of the generator's reserved list and Python keywords (read from the working tree at run time)} x "
-        "{top-level/nested field, flattened parameter (top-level, dotted), HTTP path variable (top-level, dotted), HTTP body, REST query, REQUIRED REST query field (set and left at its "
+        "{top-level/nested field, flattened parameter (top-level, dotted), HTTP path variable (top-level, dotted leaf, dotted parent), HTTP body, REST query, REQUIRED REST query field (set and left at its "
         "default; lower-case words), "
         "explicit routing field (top-level, nested), rpc name (keywords), proto file name (keywords + metadata/retry/timeout/request)} is "
         "enumerated completely: one library per position holding all words (bisected down to single words when it cannot be generated "
@@ -39,7 +39,7 @@ def reserved_set():
 
 
 def floors(tier):
-    return {"pairs_judged": 500, "positions": 12, "collision_configs": 3}
+    return {"pairs_judged": 500, "positions": 13, "collision_configs": 3}
 
 
 def plan(seed, tier):
@@ -169,7 +169,7 @@ def judge(position, item, o, model, api):
             vals = [x for k, x in e["headers"] if k.lower() == "x-goog-request-params"]
         return dict(urllib.parse.parse_qsl(vals[0], keep_blank_values=True)) if vals else {}
 
-    if position in ("field", "flat", "flat_dotted", "path", "path_dotted", "body", "query", "query_required", "routing", "routing_nested"):
+    if position in ("field", "flat", "flat_dotted", "path", "path_dotted", "path_dotted_parent", "body", "query", "query_required", "routing", "routing_nested"):
         if o.get("attr") != w_:
             bad("attribute-name", f"field {w!r}: reachable attribute is {o.get('attr')!r}, expected {w_!r}")
     g = grpc_req()
@@ -223,6 +223,17 @@ def judge(position, item, o, model, api):
         for tr, e in (("grpc", ge), ("rest", r)):
             if header(e, tr) != {f"inner.{w}": "things/x"}:
                 bad("routing-key", f"{tr}: {header(e, tr)} expected key 'inner.{w}'")
+    elif position == "path_dotted_parent":
+        sub = getattr(gm, w)
+        if sub.other != "things/x" or getattr(sub, w) != "n1":
+            bad("wire-field", f"server decoded {str(gm)[:160]!r}")
+        if path != f"/v1/things/x/pp{item['i']}":
+            bad("http-path", path)
+        if bj != {jn: "n1"}:
+            bad("http-body", f"REST body {body[:200]!r}: expected the field named by body without the path-bound leaf, with key {jn!r}")
+        for tr, e in (("grpc", ge), ("rest", r)):
+            if header(e, tr) != {f"{w}.other": "things/x"}:
+                bad("routing-key", f"{tr}: {header(e, tr)} expected key '{w}.other'")
     elif position == "body":
         sub = getattr(gm, w)
         if sub.other != "o" or getattr(sub, w) != "n1":
@@ -444,6 +455,11 @@ def in_runner(script):
             elif pos == "path_dotted":
                 Inner = lib.msg_cls(it["inner"])
                 req = Req(inner=Inner(**{w_: "things/x"}))
+                name = "call%d" % it["i"]
+            elif pos == "path_dotted_parent":
+                Inner = lib.msg_cls(it["inner"])
+                iw = [a for a in (w, w + "_") if _has_field(Inner(), a)][0]
+                req = Req(**{w_: Inner(**{"other": "things/x", iw: "n1"})})
                 name = "call%d" % it["i"]
             elif pos == "body":
                 Inner = lib.msg_cls(it["inner"])
